@@ -27,6 +27,12 @@ fn strat() -> BoxedStrategy<SimCase> {
 /// The shared end-to-end oracle: every published round equals the ground truth; the snapshot's
 /// per-hop totals are the sums of those outcomes.  Returns the truth for further checks.
 pub fn check_outcomes(log: &RunLog, obs: &mut Obs) -> Result<Option<oracle::Truth>, Fail> {
+    check_outcomes_from(log, obs, 0)
+}
+
+/// As `check_outcomes`; the snapshot totals are the sums over the rounds from `from` on (the
+/// state was cleared right after round `from - 1` was applied).
+pub fn check_outcomes_from(log: &RunLog, obs: &mut Obs, from: usize) -> Result<Option<oracle::Truth>, Fail> {
     let Some(truth) = super::e2e::prepare(log, obs)? else {
         return Ok(None);
     };
@@ -67,7 +73,7 @@ pub fn check_outcomes(log: &RunLog, obs: &mut Obs) -> Result<Option<oracle::Trut
         let mut recv: BTreeMap<u8, usize> = BTreeMap::new();
         let mut failed: BTreeMap<u8, usize> = BTreeMap::new();
         let mut by_host: BTreeMap<(u8, std::net::IpAddr), usize> = BTreeMap::new();
-        for (k, r) in truth.rounds.iter().enumerate() {
+        for (k, r) in truth.rounds.iter().enumerate().skip(from) {
             for (i, e) in r.iter().enumerate() {
                 let ttl_of_failed = || log.sends[truth.round_sends[k][i]].wire.as_ref().map(|w| w.ttl);
                 match e {
@@ -206,6 +212,50 @@ fn faults_test(c: &SimCase, obs: &mut Obs) -> CheckResult {
     Ok(())
 }
 
+/// A session whose data is cleared in mid-run (the TUI's clear-trace-data command, here issued
+/// from the publish callback right after round `clear_after` was applied): the published rounds
+/// are judged as ever, the snapshot totals are the sums over the rounds since the clear.
+#[derive(Clone, Debug, serde::Serialize, serde::Deserialize)]
+pub struct ClearCase {
+    pub sim: SimCase,
+    pub clear_after: u8,
+}
+
+fn clear_strat() -> BoxedStrategy<ClearCase> {
+    use proptest::prelude::*;
+    (sim_case(&GenOpts { rounds: (2, 8), ..opts() }), 0u8..=6).prop_map(|(sim, clear_after)| ClearCase { sim, clear_after }).boxed()
+}
+
+fn clear_test(c: &ClearCase, obs: &mut Obs) -> CheckResult {
+    let tracer = match c.sim.cfg.build() {
+        Ok(t) => t,
+        Err(_) => {
+            obs.excluded("builder-rejected");
+            return Ok(());
+        }
+    };
+    let published = std::cell::Cell::new(0usize);
+    let cleared_at = std::cell::Cell::new(None);
+    let handle = tracer.clone();
+    let log = run_shared(tracer, &c.sim.cfg, &c.sim.world, |_| {
+        let k = published.get();
+        if k == usize::from(c.clear_after) {
+            handle.clear();
+            cleared_at.set(Some(k));
+        }
+        published.set(k + 1);
+    });
+    let from = cleared_at.get().map_or(0, |k| k + 1);
+    if check_outcomes_from(&log, obs, from)?.is_none() {
+        return Ok(());
+    }
+    if cleared_at.get().is_some() && log.rounds.len() > from {
+        obs.class("rounds-after-clear");
+        obs.nontrivial(&(c.sim.cfg.cell(), c.clear_after, log.rounds.len(), log.sends.len()));
+    }
+    Ok(())
+}
+
 pub fn check() -> PropertyCheck {
     PropertyCheck {
         id: "C01",
@@ -231,6 +281,14 @@ pub fn check() -> PropertyCheck {
             strat: super::c10::fault_strat,
             test: faults_test,
             max_shrink: 4000,
+        }),
+        Box::new(Pbt {
+            name: "e2e-clear",
+            quick: 30_000,
+            thorough: 1_000_000,
+            strat: clear_strat,
+            test: clear_test,
+            max_shrink: 3000,
         })],
     }
 }
